@@ -235,6 +235,10 @@ def run(ctx):
         (dict(n_intf=3, workers=1, steps=16, seed=3, moves=["sh", "sh", "sh"], delete_old=True, delete_old_all=True), None,
          [2, 3] if quick else [2, 3, 6, 7, 8]),
     ]
+    # initial paths reaching beyond their own interface: steps 0 and 2 of this run re-sort the path/ensemble
+    # table (sort_trajstate swaps); the crashes are placed in the steps that follow a re-sorting step
+    scenarios.append((dict(n_intf=4, workers=2, steps=7, seed=9, moves=["sh"] * 4, init_reach=[0, 4, 2, 4], delete_old=True),
+                      [0, 1, 0, 0, 1, 0, 0], [1, 3] if quick else [0, 1, 2, 3, 4]))
     if not quick:
         scenarios += [
             (dict(n_intf=4, workers=1, steps=9, seed=11, moves=["sh", "sh", "wf", "wf"], cap=3.25, delete_old=True, delete_old_all=True), None, list(range(9))),
